@@ -75,7 +75,7 @@ func (a *Activation) lookup(st *State, ins *ssa.Lookup) {
 		}
 	case *types.Basic:
 		i64 := a.intTo64(idx.T, ins.Index.Type())
-		a.boundCheck(st, "idx", bvcmp("bvult", i64, sLen(x.T)), ins.Pos())
+		a.boundCheck(st, "idx", idxOK(i64, sLen(x.T)), ins.Pos())
 		a.set(ins, Val{T: sel(g.heap(st, bvSort(8)), elemLoc(sArr(x.T), bvop("bvadd", sOff(x.T), i64)))})
 	default:
 		a.set(ins, a.havocValue(st, ins.Type(), "lookup"))
